@@ -114,8 +114,8 @@ def gen_definition(rng, *, rational=True, max_states=5, max_controls=3, max_cal=
     d = {
         "dt": "dt", "state": state, "control": control, "calibration": cal,
         "state_model": sm, "sensors": sensors,
-        "process_noise": {u: rng.choice([0.25, 0.5, 1.0, 2.0, 0.125]) for u in control},
-        "sensor_noise": {k: {r: rng.choice([0.25, 0.5, 1.0, 2.0]) for r in rd} for k, rd in sensors.items()},
+        "process_noise": {u: rng.choice([0.25, 0.5, 1.0, 2.0, 0.125, 2.5e-7, 4e-10, 1e-3]) for u in control},
+        "sensor_noise": {k: {r: rng.choice([0.25, 0.5, 1.0, 2.0, 0.0625]) for r in rd} for k, rd in sensors.items()},
         "calibration_map": cmap,
         "rational": rational,
     }
